@@ -124,4 +124,10 @@ def DVal.set (d : DVal) (k : String) (x : DVal) : DVal :=
   | .struct fs => .struct (setD fs k x)
   | _ => d
 
+/-- Params is a Go map: the formatter substitutes in ascending key order (a value may itself hold
+    another parameter's placeholder, so the order is observable) -/
+def sortParams (params : List (String × String)) : List (String × String) :=
+  params.mergeSort (fun a b => decide (a.1 ≤ b.1))
+
+
 end Zog
